@@ -7,8 +7,8 @@ import (
 	"net/netip"
 	"os"
 	"strings"
-	"syscall"
 	"sync"
+	"syscall"
 	"testing"
 	"time"
 
@@ -76,6 +76,12 @@ type history struct {
 	// BusyFirst: before cycle N (1-based; 0 = never) the client first tries to listen while ANOTHER socket holds the listen
 	// address: that attempt ends (error or not) without a connected callback; once the address is free the cycle runs as usual
 	BusyFirst int `json:"busy_first,omitempty"`
+	// WaitInConnected: the connected callback does not return before the datagram it sent from inside has been answered by
+	// a callback (or 1.5 s have passed): datagrams received while it is still running are delivered like any other
+	WaitInConnected bool `json:"wait_in_connected,omitempty"`
+	// BindPort: the client has a fixed bind port (bind address 0.0.0.0) and sender 0 sends FROM that port number (on its own
+	// loopback address) - where a datagram comes from does not matter
+	BindPort bool `json:"bind_port,omitempty"`
 }
 
 // outcome of one datagram according to the protocol model
@@ -136,6 +142,7 @@ type recorder struct {
 	early     int // callbacks before OnConnected
 	events    []logged
 	errors    []string
+	errObjs   []error
 	onConnect func()
 }
 
@@ -164,6 +171,7 @@ func (r *recorder) OnError(err error) bool {
 		r.early++
 	}
 	r.errors = append(r.errors, err.Error())
+	r.errObjs = append(r.errObjs, err)
 	r.mu.Unlock()
 	return true
 }
@@ -182,8 +190,18 @@ func run(h history) *rp.Fail {
 	}
 	listen := netip.AddrPortFrom(netip.AddrFrom4([4]byte{127, 0, 0, 1}), port)
 	var senders []*net.UDPConn
+	bindPort := uint16(0)
+	if h.BindPort {
+		if p, err := farm.FreePort([4]byte{127, 0, 0, 2}); err == nil {
+			bindPort = p
+		}
+	}
 	for i := 0; i < 3; i++ {
-		c, err := net.ListenUDP("udp4", &net.UDPAddr{IP: net.IPv4(127, 0, 0, byte(2+i)), Port: 0})
+		sp := 0
+		if i == 0 {
+			sp = int(bindPort)
+		}
+		c, err := net.ListenUDP("udp4", &net.UDPAddr{IP: net.IPv4(127, 0, 0, byte(2+i)), Port: sp})
 		if err != nil {
 			ev.HarnessError("sender socket: %v", err)
 			return nil
@@ -199,7 +217,7 @@ func run(h history) *rp.Fail {
 		u := shared
 		if u == nil {
 			u = hook.Real(hook.ClientCfg{HasListen: true, ListenIP: [4]byte{127, 0, 0, 1}, ListenPort: port, TimeoutMs: 30, Debug: h.Debug, Devices: h.Devices,
-				BindIP: [4]byte{127, 0, 0, 1}, HasBroadcast: true, BroadcastIP: [4]byte{127, 0, 6, 1}, BroadcastPort: 9})
+				BindIP: map[bool][4]byte{false: {127, 0, 0, 1}, true: {0, 0, 0, 0}}[bindPort != 0], BindPort: bindPort, HasBroadcast: true, BroadcastIP: [4]byte{127, 0, 6, 1}, BroadcastPort: 9})
 			if h.OneClient {
 				shared = u
 			}
@@ -241,7 +259,16 @@ func run(h history) *rp.Fail {
 			}
 		}
 		rec := &recorder{}
-		rec.onConnect = func() { send(cy.Hello) }
+		rec.onConnect = func() {
+			send(cy.Hello)
+			if h.WaitInConnected {
+				for until := time.Now().Add(1500 * time.Millisecond); time.Now().Before(until); time.Sleep(200 * time.Microsecond) {
+					if e, x := rec.counts(); e+x >= 1 {
+						break
+					}
+				}
+			}
+		}
 		q := make(chan os.Signal, 2)
 		done := make(chan error, 1)
 		go func() {
@@ -328,6 +355,15 @@ func run(h history) *rp.Fail {
 		if connected != 1 {
 			return rp.Failf("uhppote.Listen/connected-callback", "cycle %d: %d connected callbacks, want exactly 1", ci, connected)
 		}
+		// an error that was handed to the application says the same thing later (it does not refer to the receive buffer)
+		rec.mu.Lock()
+		for k, e := range rec.errObjs {
+			if now := e.Error(); now != rec.errors[k] {
+				rec.mu.Unlock()
+				return rp.Failf("uhppote.Listen/error-changed-later", "cycle %d: error callback %d said %q when it was delivered and says %q after later datagrams", ci, k, rec.errors[k], now)
+			}
+		}
+		rec.mu.Unlock()
 		if early != 0 {
 			return rp.Failf("uhppote.Listen/callback-before-connected", "cycle %d: %d callbacks before the connected callback", ci, early)
 		}
@@ -416,6 +452,12 @@ func check(h history) *rp.Fail {
 	if h.Calls {
 		ev.Class("history/requests-while-listening", 1)
 	}
+	if h.WaitInConnected {
+		ev.Class("history/connected-callback-waits-for-its-datagram", 1)
+	}
+	if h.BindPort {
+		ev.Class("history/sender-on-the-client-bind-port", 1)
+	}
 	if h.BusyFirst > 0 && h.BusyFirst <= len(h.Cycles) {
 		ev.Class("history/listen-attempt-on-a-busy-address-first", 1)
 	}
@@ -479,6 +521,8 @@ func genHistory(t *rapid.T) history {
 	if rapid.IntRange(0, 3).Draw(t, "busy") == 0 {
 		h.BusyFirst = rapid.IntRange(1, 2).Draw(t, "busy.before")
 	}
+	h.WaitInConnected = rapid.Bool().Draw(t, "wait.in.connected")
+	h.BindPort = rapid.IntRange(0, 2).Draw(t, "bind.port") == 0 && !h.Calls
 	var pool []uint32
 	for i := rapid.IntRange(0, 3).Draw(t, "configured"); i > 0; i-- {
 		s := gen.Serial(t)
